@@ -28,6 +28,7 @@ type HSpec struct {
 	Dir    string `json:"dir"`    // "out" | "in"
 	Type   string `json:"type"`   // "ALL" or a MsgType
 	Before bool   `json:"before"` // registered before the session is constructed
+	AfterLogon bool `json:"after_logon,omitempty"` // registered while the session is logged on (right before the send step LateAt): behind the handlers the session itself adds at logon
 	Mod    int    `json:"mod"`    // outgoing: refuse when callIndex % Mod == Rem (Mod 0: never)
 	Rem    int    `json:"rem"`
 	Modify bool   `json:"modify"` // outgoing: the handler changes the message (TargetCompID) before looking at it
@@ -43,6 +44,7 @@ type C19Case struct {
 	RefusedFirst  bool    `json:"refused_first,omitempty"` // acceptor: a Logon refused by the application's callback precedes the good one
 	HeldReuse     bool    `json:"held_reuse,omitempty"` // the history contains a stretch in which the peer is not reading (messages stay queued, buffer 10) and the application sends ONE message object 2-3 times with another MDReqID each time (steps named held-...)
 	Prior         *Script `json:"prior,omitempty"` // an earlier session on the same stores, after which the application reset both counters
+	LateAt        string `json:"late_at,omitempty"` // the send step before which the AfterLogon handlers are registered
 	RemoveHandler int    `json:"remove_handler"`
 	RemoveAt      string `json:"remove_at,omitempty"`
 }
@@ -91,8 +93,22 @@ func genC19(t *rapid.T) *C19Case {
 	}
 	c.Steps = append(c.Steps, rig.Step{Op: "in", In: g.goodLogon(0)})
 	n := rapid.IntRange(1, 30).Draw(t, "nSteps")
+	// an all-types incoming handler of the application that refuses messages sits in front of the
+	// session's own all-types handlers (which note that the peer is alive): with one of those the
+	// session legitimately goes on probing and hangs up, so no silence is generated then
+	maxKind := 10
+	for _, h := range c.Handlers {
+		if h.Dir == "in" && h.Type == "ALL" && h.Mod > 0 {
+			maxKind = 9
+		}
+	}
 	for i := 0; i < n; i++ {
-		switch rapid.IntRange(0, 9).Draw(t, "kind") {
+		switch rapid.IntRange(0, maxKind).Draw(t, "kind") {
+		case 10:
+			// the peer is silent until the session probes it, then shows it is alive: the
+			// message that ends the probing is offered to every handler like any other
+			T := int64(tolT(g.hb))
+			c.Steps = append(c.Steps, rig.Step{Op: "advance", Dt: T + T/10 + 1e6}, rig.Step{Op: "in", In: g.heartbeat("")})
 		case 0, 1, 2, 3, 4:
 			c.Steps = append(c.Steps, rig.Step{Op: "send", ID: fmt.Sprintf("app%d", i)})
 		case 5, 6:
@@ -111,6 +127,22 @@ func genC19(t *rapid.T) *C19Case {
 		}
 	}
 	c.MaxHB = g.maxHB
+	if rapid.IntRange(0, 2).Draw(t, "lateRegistration") == 0 {
+		var sends []string
+		for _, st := range c.Steps {
+			if st.Op == "send" {
+				sends = append(sends, st.ID)
+			}
+		}
+		if len(sends) > 0 {
+			c.LateAt = sends[rapid.IntRange(0, min(2, len(sends)-1)).Draw(t, "lateAt")]
+			for i := range c.Handlers {
+				if !c.Handlers[i].Before && rapid.Bool().Draw(t, "hAfterLogon") {
+					c.Handlers[i].AfterLogon = true
+				}
+			}
+		}
+	}
 	if rapid.IntRange(0, 5).Draw(t, "heldReuse") == 0 {
 		c.HeldReuse = true
 		c.Cfg.Buf = 10
@@ -176,18 +208,29 @@ func textOf(msg simplefixgo.SendingMessage) (string, bool) {
 	return "", false
 }
 
+// when: 0 before the session exists, 1 after Session.Run and before any traffic, 2 while logged on.
+func (h HSpec) when() int {
+	switch {
+	case h.Before:
+		return 0
+	case h.AfterLogon:
+		return 2
+	}
+	return 1
+}
+
 func checkC19(c *C19Case, rec *evid.Rec) (vs []pbt.Violation) {
 	calls := make([]int, len(c.Handlers))
 	ids := make([]int64, len(c.Handlers))
 	var hRef *simplefixgo.DefaultHandler
 	var logRef *rig.EventLog
-	register := func(before bool) func(h *simplefixgo.DefaultHandler, log *rig.EventLog) {
+	register := func(when int) func(h *simplefixgo.DefaultHandler, log *rig.EventLog) {
 		return func(h *simplefixgo.DefaultHandler, log *rig.EventLog) {
 			hRef, logRef = h, log
 			for i := range c.Handlers {
 				i := i
 				hs := c.Handlers[i]
-				if hs.Before != before {
+				if hs.when() != when {
 					continue
 				}
 				mt := hs.Type
@@ -224,13 +267,17 @@ func checkC19(c *C19Case, rec *evid.Rec) (vs []pbt.Violation) {
 			}
 		}
 	}
-	hooks := &rig.Hooks{BeforeRun: register(true)}
+	hooks := &rig.Hooks{BeforeRun: register(0)}
 	var heldObj *fixgen.MarketDataRequestReject
 	if c.HeldReuse {
 		heldObj = fixgen.NewMarketDataRequestReject()
 	}
-	if c.RemoveHandler >= 0 || c.HeldReuse {
+	if c.RemoveHandler >= 0 || c.HeldReuse || c.LateAt != "" {
 		hooks.AppMessage = func(st *rig.Step) messages.Message {
+			if c.LateAt != "" && st.ID == c.LateAt && hRef != nil {
+				register(2)(hRef, logRef)
+				logRef.Add(rig.Event{Kind: "after-logon-handlers-registered"})
+			}
 			if heldObj != nil && strings.HasPrefix(st.ID, "held-") {
 				heldObj.SetMDReqID(st.ID) // the application's one message object, used again
 				return heldObj
@@ -252,7 +299,7 @@ func checkC19(c *C19Case, rec *evid.Rec) (vs []pbt.Violation) {
 		}
 	}
 	hooks.AfterRun = func(h *simplefixgo.DefaultHandler, s *session.Session, log *rig.EventLog) {
-		register(false)(h, log)
+		register(1)(h, log)
 		log.Add(rig.Event{Kind: "late-handlers-registered"})
 	}
 	// event handlers are registered before Session.Run's own (KeepSession runs right after construction)
@@ -289,7 +336,12 @@ func checkC19(c *C19Case, rec *evid.Rec) (vs []pbt.Violation) {
 		}
 	}
 	for i, hs := range c.Handlers {
-		if !hs.Before {
+		if hs.when() == 1 {
+			regOrder = append(regOrder, i)
+		}
+	}
+	for i, hs := range c.Handlers {
+		if hs.when() == 2 {
 			regOrder = append(regOrder, i)
 		}
 	}
@@ -428,13 +480,24 @@ func checkC19(c *C19Case, rec *evid.Rec) (vs []pbt.Violation) {
 			sendCalls = append(sendCalls, e.Order)
 		}
 	}
-	lateAt := -1
+	lateAt, afterLogonAt := -1, -1
 	for _, e := range evs {
 		if e.Kind == "late-handlers-registered" {
 			lateAt = e.Order
 		}
+		if e.Kind == "after-logon-handlers-registered" {
+			afterLogonAt = e.Order
+		}
 	}
-	active := func(i int, at int) bool { return c.Handlers[i].Before || (lateAt >= 0 && at > lateAt) }
+	active := func(i int, at int) bool {
+		switch c.Handlers[i].when() {
+		case 0:
+			return true
+		case 2:
+			return afterLogonAt >= 0 && at > afterLogonAt
+		}
+		return lateAt >= 0 && at > lateAt
+	}
 	refusals, failures := 0, 0
 	for n, a := range att {
 		at := a.saveAt
@@ -567,12 +630,12 @@ func checkC19(c *C19Case, rec *evid.Rec) (vs []pbt.Violation) {
 		typ, _ := ref.Lookup(e.Bytes, rig.TagMsgType)
 		var want []int
 		for _, i := range regOrder {
-			if hs := c.Handlers[i]; hs.Dir == "in" && hs.Type == "ALL" {
+			if hs := c.Handlers[i]; hs.Dir == "in" && hs.Type == "ALL" && active(i, e.Order) {
 				want = append(want, i)
 			}
 		}
 		for _, i := range regOrder {
-			if hs := c.Handlers[i]; hs.Dir == "in" && hs.Type != "ALL" && hs.Type == typ {
+			if hs := c.Handlers[i]; hs.Dir == "in" && hs.Type != "ALL" && hs.Type == typ && active(i, e.Order) {
 				want = append(want, i)
 			}
 		}
@@ -663,6 +726,21 @@ func checkC19(c *C19Case, rec *evid.Rec) (vs []pbt.Violation) {
 	}
 	if c.RefusedFirst {
 		rec.Hist("refused-logon-first")
+	}
+	if afterLogonAt >= 0 {
+		rec.Hist("handlers-registered-while-logged-on")
+		probed, registered := false, false
+		for i := range c.Steps {
+			if c.Steps[i].Op == "send" && c.Steps[i].ID == c.LateAt {
+				registered = true
+			}
+			if c.Steps[i].Op == "advance" && registered && i+1 < len(tr.Steps) && tr.Steps[i+1].Delivered {
+				probed = true
+			}
+		}
+		if probed {
+			rec.Hist("probe-answered-after-late-registration")
+		}
 	}
 	rec.Hist(fmt.Sprintf("out-handlers=%d", outPool))
 	rec.Hist(fmt.Sprintf("in-handlers=%d", inPool))
